@@ -523,6 +523,15 @@ func (s *Sink) Case(op string, run func() string) {
 	s.impl.Flush()
 }
 
+// Probe announces a direct (model-free) evaluation that may kill the process (stack overflow,
+// deadlock): the description is written to probe.txt before it runs and cleared by ProbeDone, so that
+// the driver can name the culprit of a fatal crash that happens outside any Case.
+func (s *Sink) Probe(dir string, key string, input string) {
+	os.WriteFile(dir+"/probe.txt", []byte(key+"\t"+input+"\n"), 0o644)
+}
+
+func (s *Sink) ProbeDone(dir string) { os.Remove(dir + "/probe.txt") }
+
 // DirectFail records an input on which the property itself fails on the implementation.
 func (s *Sink) DirectFail(key string, input string, what string) {
 	s.DirectFailures++
